@@ -58,6 +58,13 @@ def evaluate(case, out):
         if ref is not None:
             out.expect(abs(m[6] - ref[6]) <= 1e-9 * max(1.0, abs(ref[6])), "reported-difficulty!=difficulty-function-on-true-tallies",
                        lambda: {"assertion": m[:4], "reported": m[6], "recomputed": ref[6]})
+    # "the least difficult SUFFICIENT set": the optimum is a statement about sets that exclude every alternative winner
+    from checks.c04 import as_tuple as _t
+    mine = [_t(a) for a in res]
+    for o in ir.alternative_orders(cands, winner):
+        if not out.expect(any(ir.contradicts(m, o) for m in mine), "returned-set-is-not-sufficient",
+                          lambda: {"order": list(o), "assertions": [m[:4] for m in mine]}):
+            return
     got = max(a.difficulty for a in res)
     out.expect(abs(got - opt) <= 1e-9 * max(1.0, abs(opt)), "largest-difficulty!=minimax-optimum",
                lambda: {"returned": got, "optimum": opt, "assertions": [a.to_str() for a in res]})
